@@ -676,6 +676,11 @@ func normalizePath(dst, src []byte) []byte {
 		b = b[:len(b)-nn+n]
 	}
 
+	// remove trailing /.
+	if bytes.HasSuffix(b, strSlashDot) {
+		b = b[:len(b)-1]
+	}
+
 	// remove /foo/../ parts
 	for {
 		n := bytes.Index(b, strSlashDotDotSlash)
